@@ -199,7 +199,7 @@ def parse_site(s):
 class Fault:
     """one fault as enumerated by Faults.tla:
          cls value   : site, kind in retype|delete|ref_self|ref_missing|ref_loop1|ref_loop2|
-                                     off_self|off_dangling|off_cycle|off_garbage,  to (retype: target kind,
+                                     off_self|off_dangling|off_cycle|off_garbage|rawstr,  to (retype: target kind,
                                      'x' direct / 'r_x' through a reference), variant
          cls payload : site = owner of the stream, kind corrupt|truncate, pos, mode (corrupt: flip|low)
          cls file    : kind truncate, pos = number of bytes kept
@@ -221,6 +221,8 @@ class Fault:
         x = self.kind
         if self.kind == "retype":
             x += "->%s.%d" % (self.to, self.variant)
+        if self.kind == "rawstr":
+            x += ".%d" % self.variant
         if self.cls in ("payload", "file"):
             x += "@%d%s" % (self.pos, ("." + self.mode) if self.mode else "")
         return x
@@ -252,6 +254,10 @@ def plan(f, base):
         else:
             v = copy.deepcopy(REPR[(kind, 0 if kind in SINGLE_VARIANT else f.variant)])
         fixed = add(v) if ind else v
+    elif f.kind == "rawstr":
+        # encrypted documents: a string whose bytes in the file are no ciphertext (Raw bypasses the encryption
+        # transform of the serialiser) and are shorter than an AES initialization vector
+        fixed = Raw(b"(abc)") if f.variant == 0 else add(Raw(b"<4142>"))
     elif f.kind == "ref_missing":
         fixed = Ref(base + 40)
     elif f.kind == "ref_loop1":
@@ -612,4 +618,10 @@ def describe(seed):
             if t != 0:
                 ents.append({"id": "xrefent:%d/%d" % (k, n), "form": "table" if form == "table" else "stream",
                              "t": t})
-    return {"name": seed.name, "sites": sites, "streams": streams, "ents": ents, "flen": len(data)}, data, lay
+    direct = set()
+    for rev in seed.revs:
+        packed = set(rev.packed) if rev.form != "table" else set()
+        direct.update("obj:%d" % n for n in rev.objects if n not in packed)
+        direct.difference_update("obj:%d" % n for n in rev.objects if n in packed)
+    return {"name": seed.name, "sites": sites, "streams": streams, "ents": ents, "flen": len(data),
+            "enc": seed.sec is not None, "direct_owners": sorted(direct)}, data, lay
